@@ -215,3 +215,21 @@ mut("C31", "R31.2", "candidate-tests-other-cell", RT + "parser/recovery.rs",
     "                    if d[i - 1][j - 1] + 1 < min {", "                    if d[i - 1][j] + 1 < min {")
 mut("C31", "R31.2", "boundary-row-delete", RT + "parser/recovery.rs",
     "            ops[0][j] = EditOp::Insert;", "            ops[0][j] = EditOp::Delete;")
+# ---- third round
+mut("C25", "R25.5", "lookahead-after-decorate", PA + "grammar/symbol.rs",
+    "                let mut token_expression = format!(\"{delimiter}{t}{delimiter}\");\n                if let Some(la) = l {\n                    // The lookahead belongs to the token expression, AST control comes behind it\n                    write!(token_expression, \" {}\", la.to_par()).map_err(|e| anyhow!(e))?;\n                }\n                a.decorate(&mut d, &token_expression)\n                    .map_err(|e| anyhow!(\"Decorate error!: {}\", e))?;",
+    "                a.decorate(&mut d, &format!(\"{delimiter}{t}{delimiter}\"))\n                    .map_err(|e| anyhow!(\"Decorate error!: {}\", e))?;\n                if let Some(la) = l {\n                    write!(d, \" {}\", la.to_par()).map_err(|e| anyhow!(e))?;\n                }")
+mut("C28", "R28.4", "scanner-state-arm-reads-non-terminal-table", LS + "parol_ls_grammar.rs",
+    "                            edits: self\n                                .scanner_state_definitions\n                                .find_references(ident)",
+    "                            edits: self\n                                .non_terminal_definitions\n                                .find_references(ident)")
+mut("C27", "R27.5", "comments-before-bar-only-at-line-end", LS + "formatting/format/grammar_core_fmt.rs",
+    "                if !comments_before_or.is_empty() {\n                    // Comments in front of the `|` are kept in any layout, not only at line ends\n",
+    "                if Line::ends_with_nl(&acc) && !comments_before_or.is_empty() {\n")
+mut("C15", "R15.4", "two-atom-template-without-run", PA + "generators/scanner_config.rs",
+    "r\"{s}[^{c0}]*({a0}+[^{excluded}][^{c0}]*)*{a0}+{a1}\"", "r\"{s}[^{c0}]*({a0}[^{excluded}][^{c0}]*)*{a0}{a1}\"")
+mut("C14", "R14.2", "no-gap-before-first-token", RT + "lexer/token_buffer.rs",
+    "        if self.last_token_location < new_start {", "        if !self.tokens.is_empty() && self.last_token_location < new_start {")
+mut("C29", "R29.4", "first-content-change", LS + "server.rs",
+    "        if let Some(change) = content_changes.last() {", "        if let Some(change) = content_changes.first() {")
+mut("C30", "R30.5", "unchecked-range-index", LS + "server.rs",
+    "        Some(input.get(start..end)?.trim().to_owned())", "        Some(input[start..end].trim().to_owned())")
